@@ -9,6 +9,7 @@ let () =
   | _ :: "srv" :: path :: _ -> Srv.run path ""
   | _ :: "stall" :: path :: _ -> Stall.run path
   | _ :: "tls" :: path :: _ -> Tls.run path
+  | _ :: "shut" :: path :: _ -> Shut.run path
   | _ :: "c05" :: path :: _ -> C05.run path
   | _ :: "c06" :: path :: _ -> C06.run path
   | _ :: "ps" :: path :: _ -> Ps.run path
